@@ -284,8 +284,11 @@ def run(prog: Program, rep, tier="quick"):
     src = norm(cd.node, 100000)
     rep.ob("R03.5", PACK, cd.qual, "Python encoder splits copies with min(len, _MAX_COPY_LEN)", "min(copy_len, _MAX_COPY_LEN)" in src, "", cd.node.lineno)
     rep.ob("R03.5", PACK, cd.qual, "Python encoder caps literal inserts at 127", ("127 < s" in src or "s > 127" in src) and "bytes([127])" in src and "bytes([s])" in src, "", cd.node.lineno)
-    ys = [y for y in ast.walk(cd.node) if isinstance(y, ast.Yield)]
-    ys.sort(key=lambda y: y.lineno)
+    def _preorder(n_):
+        yield n_
+        for ch_ in ast.iter_child_nodes(n_):
+            yield from _preorder(ch_)
+    ys = [y for y in _preorder(cd.node) if isinstance(y, ast.Yield)]      # program order (inlined code keeps foreign line numbers)
     rep.ob("R03.5", PACK, cd.qual, "Python encoder emits both size varints first",
            len(ys) >= 2 and "_delta_encode_size(len(base_buf))" in norm(ys[0]) and "_delta_encode_size(len(target_buf))" in norm(ys[1]), "", cd.node.lineno)
     ci = rf.fns.get("create_delta_internal")
